@@ -1,6 +1,7 @@
 import PysnarkModel.Spec.FxpProg
 import PysnarkModel.Lemmas.FxpValues
 import PysnarkModel.Lemmas.ValuesDispatch
+import PysnarkModel.Lemmas.IteTag
 /-!
 # C14 at program level, layer 1: what every dispatch function returns, on representations
 
@@ -406,8 +407,9 @@ theorem fx_checkNonzeroV_fxp_val {d : LinComb} (h : checkNonzeroV (.fxp d) s = .
   obtain ⟨sm, vr⟩ := checkNonzero_val h1
   exact ⟨sm, r, rfl, vr⟩
 
-/-- an integer secret on the LEFT of `<=`, `>=`, `==`, `!=` against a fixed-point value: right
-(the strict comparisons are the recorded deviation `cmpLV_lt_fxp_val`) -/
+/-- an integer secret on the LEFT of `<=`, `>=`, `==`, `!=` against a fixed-point value: the method
+body of `LinComb.__le__` etc. (for the strict comparisons the method returns `NotImplemented` and
+the reflected method answers: `cmpV_lc_fxp_strict_val`) -/
 theorem fx_cmpLV_fxp_val {op : Cmp} {x y : LinComb} (hp : Plain s) (hx : op ≠ .lt ∧ op ≠ .gt)
     (h : cmpLV op x (.fxp y) s = .ok (v, s')) :
     Same s s' ∧ ∃ c, v = .lcb c ∧ c.value = cmpSem op (x.value * 2 ^ s.resolution) y.value := by
@@ -457,7 +459,7 @@ theorem fx_rcmp_fxp_val {op : Cmp} {y : LinComb} (hp : Plain s)
   exact ⟨sm, r, rfl, by rw [vr, vz, cmpSem_mirror]⟩
 
 theorem fx_cmpV_fxp_val {op : Cmp} (hp : Plain s) (hf : (a.isFxp || b.isFxp) = true)
-    (hx : a.isLc = true → op ≠ .lt ∧ op ≠ .gt) (h : cmpV op a b s = .ok (v, s')) :
+    (h : cmpV op a b s = .ok (v, s')) :
     Same s s' ∧ ∃ c, v = .lcb c ∧
       c.value = cmpSem op (rep s.resolution a) (rep s.resolution b) := by
   cases a with
@@ -465,8 +467,10 @@ theorem fx_cmpV_fxp_val {op : Cmp} (hp : Plain s) (hf : (a.isFxp || b.isFxp) = t
   | lc x =>
     cases b with
     | fxp y =>
-      unfold cmpV at h; simp only at h
-      exact fx_cmpLV_fxp_val hp (hx rfl) h
+      by_cases hs : op.strict = true
+      · exact cmpV_lc_fxp_strict_val hs hp.guard hp.ign h
+      · unfold cmpV at h; simp only [hs, if_false] at h
+        refine fx_cmpLV_fxp_val hp ⟨?_, ?_⟩ h <;> (rintro rfl; exact hs rfl)
     | _ => simp [Val.isFxp] at hf
   | lcb x =>
     cases b with
@@ -507,16 +511,19 @@ theorem fx_lshiftV_fxp_val {x : LinComb} {n : Int} (h : lshiftV (.fxp x) (.int n
   obtain ⟨rfl, rfl⟩ := pure_ok' h
   exact ⟨rfl, hn, z, rfl, vz⟩
 
-theorem fx_rshiftV_fxp_val {x : LinComb} {n : Int} (hn : 0 ≤ n) (hi : s.ignoreErrors = false)
+/-- `x >> n` on a fixed-point value: a completed shift had `n ≥ 0` (a negative public count raises
+`ValueError`, as for `<<`) and shifted the representation -/
+theorem fx_rshiftV_fxp_val {x : LinComb} {n : Int} (hi : s.ignoreErrors = false)
     (h : rshiftV (.fxp x) (.int n) s = .ok (v, s')) :
-    Same s s' ∧ ∃ z, v = .fxp z ∧ z.value = x.value >>> n.toNat := by
+    Same s s' ∧ 0 ≤ n ∧ ∃ z, v = .fxp z ∧ z.value = x.value >>> n.toNat := by
   unfold rshiftV at h; simp only at h
   obtain ⟨r, s1, h1, h⟩ := bind_ok.mp h
+  have hn : 0 ≤ n := rshiftLV_int_nonneg h1
   obtain ⟨sm, vr⟩ := rshiftLV_int_val hn hi h1
   unfold mkFxpNoScale at h
   split at h
   · obtain ⟨rfl, rfl⟩ := pure_ok' h
-    exact ⟨sm, _, rfl, vr⟩
+    exact ⟨sm, hn, _, rfl, vr⟩
   · exact (raise_ok.mp h).elim
 
 /-! ## unary -/
@@ -715,11 +722,14 @@ theorem fx_ite_fxp_val {c : LinComb} {t f : Val} (hc : c.value = 0 ∨ c.value =
     refine ⟨sm, z, rfl, ?_⟩
     rw [vz, vd1]; simp only [rep]; exact key _ _
 
-/-- `if_then_else(c, t, f)` on integer-kind branches: an integer secret carrying the selected value -/
+/-- `if_then_else(c, t, f)` on integer-kind branches: a secret carrying the selected value, a boolean
+(`LinCombBool(ret, False)`) when both branches are booleans, else an integer -/
 theorem fx_ite_int_val {c : LinComb} {t f : Val} (hc : c.value = 0 ∨ c.value = 1)
     (ht : t.fxIntK = true) (hf : f.fxIntK = true) (hs : smallIntSame t f = false)
     (h : ifThenElse (.lcb c) false t f s = .ok (v, s')) :
-    Same s s' ∧ ∃ z, v = .lc z ∧ z.value = if c.value = 1 then t.num else f.num := by
+    Same s s' ∧ ∃ z, v = (if bothLcb t f = true then .lcb z else .lc z) ∧
+      z.value = (if c.value = 1 then t.num else f.num) ∧
+      (bothLcb t f = true → z.value = 0 ∨ z.value = 1) := by
   have key : ∀ (a b : Int), a + c.value * (b - a) = if c.value = 1 then b else a := by
     intro a b
     rcases hc with h0 | h1
@@ -731,7 +741,7 @@ theorem fx_ite_int_val {c : LinComb} {t f : Val} (hc : c.value = 0 ∨ c.value =
   rw [hd] at h
   unfold iteAux at h
   simp only [hs, Bool.false_eq_true, if_false] at h
-  have h' : (do let d ← subV t f; let prod ← mulLV c d; addV f prod) s = .ok (v, s') := by
+  have h' : (do let d ← subV t f; let prod ← mulLV c d; let ret ← addV f prod; iteTag t f ret) s = .ok (v, s') := by
     cases t <;> simp only [Val.fxIntK, Bool.false_eq_true] at ht <;> exact h
   clear h
   obtain ⟨d, s1, h1, k⟩ := bind_ok.mp h'
@@ -752,11 +762,24 @@ theorem fx_ite_int_val {c : LinComb} {t f : Val} (hc : c.value = 0 ∨ c.value =
       obtain ⟨sm, vp⟩ := mulLL_val h3
       exact ⟨sm, p, rfl, by rw [vp, vz]⟩
   obtain ⟨sm, p, rfl, vp⟩ := hprod
-  obtain ⟨rfl, hr⟩ := fx_addV_int_val hf (b := .lc p) rfl k
+  obtain ⟨ret, s3, h3, k⟩ := bind_ok.mp k
+  obtain ⟨rfl, hr⟩ := fx_addV_int_val hf (b := .lc p) rfl h3
   unfold fxIntRes at hr
   simp only [Val.isInt, Bool.and_false, Bool.false_eq_true, if_false] at hr
   obtain ⟨z, rfl, vz⟩ := hr
-  exact ⟨sm, z, rfl, by rw [vz]; simp only [Val.num]; rw [vp]; exact key _ _⟩
+  have vz' : z.value = if c.value = 1 then t.num else f.num := by
+    rw [vz]; simp only [Val.num]; rw [vp]; exact key _ _
+  by_cases hbb : bothLcb t f = true
+  · -- two booleans: `LinCombBool(ret, False)`, which tests the value and adds no constraint
+    cases t <;> cases f <;> simp only [bothLcb, reduceCtorEq] at hbb
+    rw [iteTag_bb] at k
+    obtain ⟨b, s4, h4, k⟩ := bind_ok.mp k
+    obtain ⟨rfl, rfl⟩ := pure_ok' k
+    obtain ⟨sm2, rfl, hb⟩ := mkBool_val h4
+    exact ⟨sm.trans sm2, _, rfl, vz', fun _ => hb⟩
+  · rw [iteTag_other _ (by simpa using hbb)] at k
+    obtain ⟨rfl, rfl⟩ := pure_ok' k
+    exact ⟨sm, z, by rw [if_neg hbb], vz', fun h => absurd h hbb⟩
 
 end
 
